@@ -74,6 +74,12 @@ def size_arg_ok(an, body, e):
             return size_arg_ok(an, body, e[3][0])
     if k == "binop" and e[1] in ("Sub", "Div", "SubWithOverflow", "Shr", "Rem", "BitAnd"):
         return size_arg_ok(an, body, e[2])
+    if k == "binop" and e[1].replace("WithOverflow", "") in ("Add", "Mul"):
+        # linear in the size of existing data: a*len + b with constant a, b
+        ra, rb = size_arg_ok(an, body, e[2]), size_arg_ok(an, body, e[3])
+        if ra[0] and rb[0] and (const_eval(peel(e[2], widen=True)) is not None or const_eval(peel(e[3], widen=True)) is not None or e[1].startswith("Add")):
+            return True, "constant multiple / sum of lengths of existing data"
+        return False, "size = %s — not linear in the length of existing data" % canon(e)[:200]
     if k == "tfield":
         return size_arg_ok(an, body, e[1])
     if k == "cast":
